@@ -35,6 +35,33 @@ CHECKS.update({
         design="4/C20"),
 })
 
+CHECKS.update({
+    "C05": dict(
+        level="exploration",
+        technique="bounded-exhaustive enumeration of a sink catalogue x metacharacter string set executed through the public API, differential tag-skeleton oracle + reader round trip + save/re-open",
+        text="124 (thorough 346) string-accepting entry points x 134 strings (all strings of length <= 2 over the XML metacharacters plus curated entity/CDATA/format-directive fragments): each call must not raise, the saved parts must re-parse with the same element skeleton as for a benign string, and the reader must return the string before and after save/re-open. Exhaustive over catalogue x string set (size asserted).",
+        note="Trusted: bare lxml parsing of saved members; the sink catalogue in mc/props/c05.py (hover hyperlinks and OLE icon names are not reachable as XML sinks through the public API). Strings outside the XML Char production are out of the claim.",
+        design="4/C05"),
+    "C06": dict(
+        level="model_checking",
+        technique="explicit-state BFS over addition histories on the real Presentation (replay mode) from decks with seeded id populations; before/after observation of every transition checked against the uniqueness/stability statement",
+        text="All histories over a 26-operation alphabet (every shape kind at top level, in a group, in a nested group, freeform and group allocators, turbo on/off, slides, notes, hyperlinks incl. shared relationships, save, save+re-open) to depth 2 (thorough 3), plus an id-allocating sub-alphabet to depth 3 (thorough 4), from 14 decks whose shape-id and slide-id populations have gaps, 2^31 / 2^32-2 ids, GUID extension ids, duplicates, leading zeros and the slide-id upper bound.",
+        note="Trusted: bare lxml reads of part blobs; the package's in-memory relationship mapping. Shape ids = numeric p:cNvPr/@id of shape-tree members. Known finding: turbo mode (documented experimental cache) collides with allocations that bypass the cache.",
+        design="4/C06"),
+    "C10": dict(
+        level="exploration",
+        technique="exhaustive enumeration of (registered element class, XSD complex type, mutator, sibling context) executed on the real element classes; child order decided by libxml2 against a mechanically relaxed copy of the ISO schemas",
+        text="196 registered tags / 156 classes / 1088 mutators found by reflection x sibling contexts generated from each type's particle tree (empty, each single kind, skeletons with every choice member, all earlier / all later, every ordered pair; thorough adds triples and 4-tuples): 205k (thorough 2.3M) judged insertions; get-or-add, remove and change-to promises checked on the same contexts.",
+        note="Trusted: libxml2 on the relaxed schema (minOccurs=0, attributes optional: order and choice exclusivity only); mc/oracles/xsd.Index particle trees (cross-checked: every generated skeleton is accepted by libxml2). Only direct-child order of the modified parent is judged; deeper subtrees belong to C03.",
+        design="4/C10"),
+    "C18": dict(
+        level="exploration",
+        technique="bounded-exhaustive enumeration of assignments, assignment pairs, all years 1..9999 and every W3CDTF granularity x offset, executed on the real core-properties part; independent W3CDTF parser and libxml2 validation against opc-coreProperties.xsd",
+        text="15 properties x string classes and boundary lengths, 19 datetimes, revision values, all ordered pairs over a reduced value set, every year 1..9999 for the three date properties, 6 W3CDTF granularities x 115 time-zone designators read from injected XML, packages with and without a core-properties part, two save/re-open cycles each; generator sizes asserted against closed forms.",
+        note="Trusted: the three stub Dublin-Core/xml schemas in /verif/schemas (the real ones are imported by HTTP URL and cannot be fetched), libxml2, mc/oracles/w3cdtf_ref.py.",
+        design="4/C18"),
+})
+
 NOT_BUILT = "check not completed yet (machinery under construction; see DESIGN.md section 8)"
 
 def main():
